@@ -571,7 +571,6 @@ func ruleReadonly(c *Ctx) {
 	}
 }
 
-
 // ruleFlagLookahead: flagScanner.Next decodes "%%" by looking one character ahead. The guard of that
 // read must be exactly Pos+1 <= Length-1: weaker and the read can leave the string, stricter and the
 // escape is not recognised when it ends the replacement string ("%1%%" → "…%%").
@@ -644,7 +643,7 @@ func ruleFlagLookahead(c *Ctx) {
 				continue
 			}
 			sgn := d.T[posKey] // +1: Pos - Length + K op 0 ; -1: Length - Pos + K op 0
-			var ub int64      // Pos - Length <= ub
+			var ub int64       // Pos - Length <= ub
 			switch {
 			case sgn == 1 && op == token.LSS:
 				ub = -d.K - 1
